@@ -164,7 +164,6 @@ func RunDaemon() {
 			ui.Info("Received SIGTERM signal, exiting...")
 			return nil
 		}, func(err error) {
-			defer close(sig)
 			cancel()
 		})
 	}
